@@ -41,5 +41,19 @@ PLANS['C13'] = Plan(
     technique='deductive: own VC generator over the real AST + z3; bounded exhaustive cross-check for replay',
 )
 
+AR = 'src/alignment/alignment_results.py::AlignmentResultRow.'
+PLANS['C03'] = Plan(
+    'C03', [AR + 'cigarString', AR + '__getHitEnums', AR + '__removeDuplicateQueryPositionsPreservingLastOne',
+            AR + '__aggregateHitEnums'], 'proof',
+    "C03 is the conjunction of the postconditions of the four real functions behind cigarString: __getHitEnums is verified with a ghost "
+    "replay cursor (every MATCH is asserted to be exactly the next listed pair; at exit all pairs are consumed; first and last operation "
+    "are M; the pair iterator is never dereferenced when exhausted), __removeDuplicate... is proved to be the identity on valid matchings, "
+    "__aggregateHitEnums is proved to be a run-length encoding (runs tile the hit list, adjacent runs differ, non-empty output), and "
+    "cigarString composes them. Assumed: the text of one run (f-string) and str.join are opaque; `alignedPairs` is a ghost-mirrored "
+    "read-only property. A bounded exhaustive cross-check on small label grids through the real cigarString supplies replayable inputs.",
+    bounded=_lazy('bcheck.c03', 'bounded'), replay=_lazy('bcheck.c03', 'replay'),
+    technique='deductive: own VC generator over the real AST + z3 (ghost replay cursor); bounded exhaustive cross-check for replay',
+)
+
 NOT_APPLICABLE = {}
-FIX_COMMITS = []
+FIX_COMMITS = ['a1f5353']
